@@ -35,6 +35,14 @@ def _snip(qt, u, v, c, expr, what="value"):
     )
 
 
+def _zoo_expr(zname):
+    return {
+        "int32": "np.array([0, 1, -3, 1000], dtype=np.int32)", "int64": "np.array([0, 1, -3, 1000], dtype=np.int64)", "float32": "np.array([0.0, 1.0, -2.5, 1000.0], dtype=np.float32)",
+        "2-d C order": "np.array([0.0, 1.0, -2.5, 1e6]).reshape(2, 2)", "2-d Fortran order": "np.asfortranarray(np.array([0.0, 1.0, -2.5, 1e6]).reshape(2, 2))",
+        "2-d transposed view": "np.arange(6.0).reshape(2, 3).T", "strided view": "np.arange(8.0)[::2]", "reversed view": "np.arange(4.0)[::-1]", "0-d": "np.array(2.5)",
+    }[zname]
+
+
 def check_pair(part, db, qt, u, v, c, full=True):
     """All routes for one (qt, u, v, c)."""
     conv = db.Convert
@@ -137,6 +145,54 @@ def check_pair(part, db, qt, u, v, c, full=True):
                 cp = arr.CreateCopy(unit=v)
                 if not obj_ok(cp) or not all(same(a, b, 0) for a, b in zip(cp.GetValues(), exp)) or list(arr.GetValues()) != list(vals):
                     bad("Array.CreateCopy(unit) %s" % kind, repr(cp), exp)
+    # ndarray varieties: dtype and memory layout are invisible to == on the amounts but not to a converter
+    base4 = np.array(X, dtype=float)
+    zoo = [
+        ("int32", np.array([0, 1, -3, 1000], dtype=np.int32), 1e-12),
+        ("int64", np.array([0, 1, -3, 1000], dtype=np.int64), 1e-12),
+        ("float32", np.array([0.0, 1.0, -2.5, 1000.0], dtype=np.float32), 1e-6),
+        ("2-d C order", base4.reshape(2, 2).copy(), 1e-12),
+        ("2-d Fortran order", np.asfortranarray(base4.reshape(2, 2)), 1e-12),
+        ("2-d transposed view", np.arange(6.0).reshape(2, 3).T, 1e-12),
+        ("strided view", np.arange(8.0)[::2], 1e-12),
+        ("reversed view", np.arange(4.0)[::-1], 1e-12),
+        ("0-d", np.array(2.5), 1e-12),
+    ]
+    for zname, za, ztol in zoo:
+        n += 2
+        exp = np.vectorize(lambda y: conv(qt, u, v, float(y)), otypes=[float])(za)
+        if zname == "float32":
+            # float32 in, float32 arithmetic: judged only where that arithmetic can hold the amounts (no offset
+            # whose cancellation eats the 7 digits, magnitudes inside the float32 range)
+            mags = [abs(e) for e in exp.ravel() if e != 0] + [abs(conv(qt, u, db.GetBaseUnit(qt), float(y))) for y in za.ravel() if y != 0]
+            if off != 0 or conv(qt, v, u, 0.0) != 0 or any(not (1e-30 < m < 1e30) for m in mags):
+                continue
+        for route, f in (("db.Convert", lambda: conv(qt, u, v, za)), ("Array.GetValues", lambda: Array(za, u, c).GetValues(v))):
+            try:
+                g = np.asarray(f(), dtype=float)
+                okz = g.shape == exp.shape and bool(np.all(np.abs(g - exp) <= ztol * np.maximum(np.abs(exp), off) + 1e-300))
+            except Exception as e:
+                g, okz = repr(e), False
+            if not okz:
+                bad("%s(ndarray %s)" % (route, zname), repr(g), exp.tolist(), "(lambda a: %s)(%s)" % ("db.Convert(qt, u, v, a)" if route == "db.Convert" else "Array(a, u, c).GetValues(v)", _zoo_expr(zname)))
+    # the caller refills ITS buffer in place and asks again; and scribbles on a returned container and asks again
+    n += 3
+    buf = np.array(X, dtype=float)
+    conv(qt, u, v, buf)
+    buf[:] = [y * 3.0 + 1.0 for y in X]
+    g = conv(qt, u, v, buf)
+    exp2 = [conv(qt, u, v, y * 3.0 + 1.0) for y in X]
+    if not all(same(a, b, 0) for a, b in zip(g, exp2)):
+        bad("db.Convert(the same ndarray object refilled in place)", repr(g), exp2)
+    for kind, mk in (("list", list), ("ndarray", lambda t: np.array(t, dtype=float))):
+        arr = Array(mk(X), u, c)
+        first = arr.GetValues(v)
+        if u != v and first is not arr.GetValues():  # (an identity conversion hands out the array's own container, as the own-unit query does)
+            for i in range(len(first)):
+                first[i] = 12345.0  # the caller owns what it was given
+        g = arr.GetValues(v)
+        if not all(same(a, b, 0) for a, b in zip(g, r0)) or list(arr.GetValues()) != list(X):
+            bad("Array.GetValues(%s) after the caller edited the previous answer" % kind, repr(g), r0)
     # list of tuples / tuple of tuples
     for outer in (list, tuple):
         n += 1
